@@ -40,6 +40,8 @@ func runC18(c *Ctx) {
 	defer c18EncodedBlockWritten(c)
 	c.Rule("C18.W11", "the splitting loops of writeHeaders are left only after a frame carrying END_HEADERS", 4)
 	defer c18LastFragmentEndsHeaders(c)
+	c.Rule("C18.W14", "HPACK decoder: the strings of an indexed literal are decoded whatever the emit switch says", 1)
+	defer c18IndexedLiteralsDecoded(c)
 	c.Rule("C18.W13", "a peer's SETTINGS values are applied only after Setting.Valid() accepted them", 4)
 	defer c18SettingsValidated(c, "C18.W13")
 	c.Rule("C18.W12", "HPACK encoding of a header block and its frame writes form one critical section of the connection mutex", 4)
